@@ -39,6 +39,24 @@ Definition check_C17 (args : list sexp) : list sexp :=
       | Some w, Some e => [A (if e then "ok" else "bad"); A "faithful"]
       | _, _ => [A "decode-error"] end
   | [A "E"; names; raws; encs; impl] => check_E names raws encs impl
+  (* (X site i impl): a 64-bit size / index through the C ABI; impl = (ok j) - accepted, the object shows j - | (err) *)
+  | [A "X"; site; i; impl] =>
+      match dec_str site, dec_Z i with
+      | Some _, Some i' =>
+          match impl, index_try i' with
+          | L [A "ok"; j], Some e => match dec_Z j with Some j' => [A (if Z.eqb j' e then "ok" else "bad"); A "index:accepted"] | None => [A "decode-error"] end
+          | L [A "err"], None => [A "ok"; A "index:refused"]
+          | L [A "ok"; _], None => [A "bad"; A "index:accepted-out-of-range"]
+          | L [A "err"], Some _ => [A "ok"; A "index:refused-in-range"]      (* the function may refuse a value that fits for reasons of its own *)
+          | _, _ => [A "decode-error"] end
+      | _, _ => [A "decode-error"] end
+  (* (T old arg new): the timestamp of a status list before an update through the C ABI, the argument, the timestamp after *)
+  | [A "T"; old; arg; new] =>
+      match dec_opt dec_Z old, dec_Z arg, dec_opt dec_Z new with
+      | Some o, Some a, Some n =>
+          let same := match ts_after o a, n with Some x, Some y => Z.eqb x y | None, None => true | _, _ => false end in
+          [A (if same then "ok" else "bad"); A "timestamp-argument"]
+      | _, _, _ => [A "decode-error"] end
   | [A "B"; test; kind; rc; msg; hmsg] =>
       match dec_str test, dec_str kind, dec_str rc, dec_bool msg, dec_bool hmsg with
       | Some t, Some k, Some rc', Some m, Some hm =>
